@@ -1,12 +1,71 @@
-(* Property C11 — Serialize/Deserialize round-trips every tape in every mode
-   Statement-level file; see DESIGN.md §6 C11.  Model-level theorems are under
-   proof in Proofs/ (see obligations.json); this file carries the tie
-   obligations and what is proved so far; the property is decided on every run
-   by the correspondence described in DESIGN.md. *)
-From SJ Require Import Model.Base Model.RefTables Spec.Json Model.Tape Model.Iter Model.Serialize Model.FloatFmt Model.Marshal Tie.GoTablesTie Tie.SerializeTie.
+(* Property C11 — Serialize/Deserialize round-trips every tape in every mode.
+   Proved on the model for EVERY string hash function (Go's per-process random
+   memhash is a parameter), for every well-formed tape including tapes with NOP
+   runs from in-place deletions. *)
+From SJ Require Import Model.Base Model.RefTables Spec.Json Model.Tape Model.Iter Model.WF Model.Serialize
+     Proofs.SerBase Proofs.SerDen Proofs.SerProofs Proofs.SerFraming Tie.GoTablesTie Tie.SerializeTie.
 Open Scope N_scope.
+
+(* Serialize never panics on a well-formed tape *)
+Theorem C11_serialize_total : forall (hash : bytes -> N) nops pj,
+  wf_check nops pj = true -> exists out, ser_core hash pj = Ok out.
+Proof. exact ser_core_total. Qed.
+
+(* Deserialize succeeds on what Serialize produced and the rebuilt tape denotes
+   the same document (number types and float flags are part of doc) *)
+Theorem C11_roundtrip : forall (hash : bytes -> N) nops pj tags vals strbuf,
+  wf_check nops pj = true ->
+  N.of_nat (length (pj_tape pj)) < two56 -> Forall (fun w => w < two64) (pj_tape pj) ->
+  ser_core hash pj = Ok (tags, vals, strbuf) ->
+  N.of_nat (length strbuf) < STRINGBUFBIT ->
+  exists t', deser_core (repeat 0 (length (pj_tape pj))) tags (bytes_of_words vals) = Ok t' /\
+             length t' = length (pj_tape pj) /\
+             (forall d, denote (pj_msg pj) (pj_strings pj) (pj_tape pj) = Some d -> denote strbuf [] t' = Some d).
+Proof. exact ser_deser_roundtrip. Qed.
+
+(* with at least one live entry the denotations are equal outright *)
+Theorem C11_roundtrip_eq : forall (hash : bytes -> N) nops pj tags vals strbuf,
+  wf_check nops pj = true ->
+  N.of_nat (length (pj_tape pj)) < two56 -> Forall (fun w => w < two64) (pj_tape pj) ->
+  Exists (fun w => (word_tag w =? TagNop) = false) (pj_tape pj) ->
+  ser_core hash pj = Ok (tags, vals, strbuf) ->
+  N.of_nat (length strbuf) < STRINGBUFBIT ->
+  exists t', deser_core (repeat 0 (length (pj_tape pj))) tags (bytes_of_words vals) = Ok t' /\
+             denote strbuf [] t' = denote (pj_msg pj) (pj_strings pj) (pj_tape pj).
+Proof. exact ser_deser_roundtrip_eq. Qed.
+
+(* the rebuilt tape is well-formed (C17 for Deserialize) *)
+Theorem C11_roundtrip_wf : forall (hash : bytes -> N) nops pj tags vals strbuf,
+  wf_check nops pj = true ->
+  N.of_nat (length (pj_tape pj)) < two56 -> Forall (fun w => w < two64) (pj_tape pj) ->
+  ser_core hash pj = Ok (tags, vals, strbuf) ->
+  N.of_nat (length strbuf) < STRINGBUFBIT ->
+  exists t', deser_core (repeat 0 (length (pj_tape pj))) tags (bytes_of_words vals) = Ok t' /\
+             wf_check true {| pj_tape := t'; pj_strings := []; pj_msg := strbuf |} = true.
+Proof. exact ser_deser_wf. Qed.
+
+(* the same for ANY sections that pass the hash-independent check the harness
+   evaluates on the real Serialize's output (so the theorem applies to the
+   implementation's blobs, whatever memhash did) *)
+Theorem C11_checked_sections_roundtrip : forall nops pj tags vb strbuf,
+  wf_check nops pj = true ->
+  N.of_nat (length (pj_tape pj)) < two56 -> N.of_nat (length strbuf) < STRINGBUFBIT ->
+  ser_check pj tags vb strbuf = true ->
+  exists t', deser_core (repeat 0 (length (pj_tape pj))) tags vb = Ok t' /\
+             R (pj_msg pj) (pj_strings pj) strbuf (pj_tape pj) t' /\
+             (forall d, denote (pj_msg pj) (pj_strings pj) (pj_tape pj) = Some d -> denote strbuf [] t' = Some d).
+Proof. exact check_deser_roundtrip. Qed.
+
+(* uncompressed framing: varints and raw blocks read back *)
+Definition C11_blob_roundtrip := serialize_blob_roundtrip.
+Definition C11_uvarint_roundtrip := uvarint_put_uvarint.
+
 Theorem C11_tie_serializer_consts :
   2 ^ gen.Consts.gen_stringBits = stringSize /\ gen.Consts.gen_serializedVersion = serializedVersion /\
   gen.Consts.gen_tagFloatWithFlag = tagFloatWithFlag.
 Proof. destruct tie_serializer_consts as (A & B & _ & _ & _ & _ & _ & H). exact (conj A (conj B H)). Qed.
-Print Assumptions C11_tie_serializer_consts.
+
+Print Assumptions C11_roundtrip.
+Print Assumptions C11_roundtrip_eq.
+Print Assumptions C11_roundtrip_wf.
+Print Assumptions C11_checked_sections_roundtrip.
